@@ -1,0 +1,8 @@
+//go:build !verif
+
+package app
+
+import "github.com/prometheus/alertmanager/notify"
+
+// verifIntegrations is a verification hook (build tag verif); a no-op in normal builds.
+func verifIntegrations(_ string, in []notify.Integration) []notify.Integration { return in }
